@@ -43,15 +43,8 @@ def entity_confs(prog, item, rnd):
         if item.get("max_entities") and len(ents) > item["max_entities"]:
             ents = rnd.sample(ents, item["max_entities"])
         return [([e], [0]) for e in ents]
-    # interior facet: pairs of facets and permutation codes
-    out = []
-    pairs = item.get("facet_pairs") or [(rnd.randrange(ne), rnd.randrange(ne)) for _ in range(item.get("npairs", 3))]
-    for e0, e1 in pairs:
-        np_ = s5.nperms(s5.facet_cellname(prog.cell, e0))
-        codes = item.get("perm_pairs") or [(rnd.randrange(np_), rnd.randrange(np_)) for _ in range(item.get("nperm", 2))]
-        for p0, p1 in codes:
-            out.append(([e0, e1], [p0, p1]))
-    return out
+    # interior facets: the pair (entity on '-', geometry) is generated together (cells really share the facet)
+    return None
 
 
 def main():
@@ -115,7 +108,7 @@ def _run(orc, meas, skipped, idx, it, r, progs, mod, k):
     scalar = it["scalar"]
     cx = scalar.startswith("complex")
     rnd = random.Random(it["seed"] * 7919 + 13)
-    gkind = it["case"]["geom"] if "case" in it else it.get("geom", "affine")
+    gkind = it.get("case", {}).get("geom", it.get("geom", "affine"))
     for prog in progs:
         prog.form_index = k
         kernels = mod.kernels(k, prog.itype, prog.subdomain_id)
@@ -123,35 +116,58 @@ def _run(orc, meas, skipped, idx, it, r, progs, mod, k):
             skipped.append({"item": idx, "why": f"no kernel listed under ({prog.itype}, {prog.subdomain_id})", "missing_kernel": True})
             continue
         pi = orc.add_prog(prog)
-        for ent, perm in entity_confs(prog, it, rnd):
+        confs = entity_confs(prog, it, rnd)
+        plan = []                                   # (ent, perm, xs or None)
+        if confs is not None:
+            plan = [(e, p, None) for e, p in confs for _ in range(it.get("ninputs", 3))]
+        else:
+            ne = prog.nentities()
+            for _ in range(it.get("npairs", 3)):
+                fp = rnd.randrange(ne)
+                for _ in range(it.get("ninputs", 2)):
+                    try:
+                        fm, xp, xm, match = s5.interior_pair(prog, rnd, fp)
+                    except OutOfModel as e:
+                        skipped.append({"item": idx, "why": f"out of model: {e}"})
+                        continue
+                    npm = s5.nperms(s5.facet_cellname(prog.cell, fp))
+                    for _ in range(it.get("nperm", 2)):
+                        plan.append(([fp, fm], [rnd.randrange(npm), rnd.randrange(npm)], [xp, xm]))
+        for ent, perm, xs_given in plan:
             try:
                 ci = orc.conf(pi, ent, perm)
             except OutOfModel as e:
                 skipped.append({"item": idx, "why": f"out of model: {e}"})
                 continue
-            for rep in range(it.get("ninputs", 3)):
+            if xs_given is not None:
+                xs = xs_given
+            else:
                 xs = []
                 for s in range(prog.nsides):
                     fac = ent[s] if prog.itype in ("exterior_facet", "interior_facet") else None
                     xs.append(s5.make_geometry(prog, gkind, rnd, facet=fac))
-                if prog.nsides == 2 and it.get("match_facets", False):
-                    pass
-                lo, hi = it.get("data_range", (-3, 3))
-                w, c = s5.random_data(prog, rnd, cx, lo, hi)
-                case = {"x": xs, "w": w, "c": c}
-                shape = s5.tensor_shape(prog)
-                n = int(np.prod(shape)) if shape else 1
-                A0 = [rnd.randint(-5, 5) for _ in range(n)] if it.get("prefill") else [0] * n
-                A = np.array(A0, dtype=np.dtype(scalar))
-                w_, c_, x_ = s5.pack(prog, case, scalar)
-                for kern in kernels:
-                    mod.call(kern, A, w_, c_, x_, np.array(ent + [0], dtype=np.int32)[:2].copy(),
-                             np.array(perm + [0], dtype=np.uint8)[:2].copy())
-                A = A - np.array(A0, dtype=np.dtype(scalar))
-                cid = orc.case(ci, xs, w, c)
-                meas.append({"case": cid, "item": idx, "A": [[float(z.real), float(z.imag)] for z in A.astype(complex)],
-                             "scalar": scalar, "nops": nops_of(prog), "itype": prog.itype, "sid": prog.subdomain_id,
-                             "ent": ent, "perm": perm, "nkernels": len(kernels)})
+            lo, hi = it.get("data_range", (-3, 3))
+            w, c = s5.random_data(prog, rnd, cx, lo, hi)
+            case = {"x": xs, "w": w, "c": c}
+            shape = s5.tensor_shape(prog)
+            n = int(np.prod(shape)) if shape else 1
+            A0 = [rnd.randint(-5, 5) for _ in range(n)] if it.get("prefill") else [0] * n
+            A = np.array(A0, dtype=np.dtype(scalar))
+            w_, c_, x_ = s5.pack(prog, case, scalar)
+            use = kernels
+            if prog.cell == "prism" and prog.itype in ("exterior_facet", "interior_facet"):
+                # one kernel per facet cell type: the per-integral cell-type tag says which applies
+                import basix
+                want = int(basix.CellType[s5.facet_cellname(prog.cell, ent[0])])
+                use = [kk for kk in kernels if kk.domain == want]
+            for kern in use:
+                mod.call(kern, A, w_, c_, x_, np.array(ent + [0], dtype=np.int32)[:2].copy(),
+                         np.array(perm + [0], dtype=np.uint8)[:2].copy())
+            A = A - np.array(A0, dtype=np.dtype(scalar))
+            cid = orc.case(ci, xs, w, c)
+            meas.append({"case": cid, "item": idx, "A": [[float(z.real), float(z.imag)] for z in A.astype(complex)],
+                         "scalar": scalar, "nops": nops_of(prog), "itype": prog.itype, "sid": prog.subdomain_id,
+                         "ent": ent, "perm": perm, "nkernels": len(use)})
 
 
 if __name__ == "__main__":
